@@ -272,6 +272,29 @@ from .util import lib_math
 def g(x: uint256) -> uint256:
     return lib_math.sum_to(x)
 """}},
+    # two search paths shadowing the same module name: `import utils` resolves by search-path precedence,
+    # `from . import utils` inside libs/zvendor resolves relatively (bundles must keep the precedence order)
+    "shadowed_paths": {"target": "main.vy", "paths": ["libs/zvendor", "libs/avendor"], "files": {
+        "libs/zvendor/utils.vy": "@internal\n@pure\ndef tag() -> uint256:\n    return 111\n",
+        "libs/avendor/utils.vy": "@internal\n@pure\ndef tag() -> uint256:\n    return 222\n",
+        "libs/zvendor/helper.vy": "from . import utils\n\n@internal\n@pure\ndef h() -> uint256:\n    return utils.tag()\n",
+        "main.vy": "import utils\nimport helper\n\n@external\ndef f() -> uint256:\n    return utils.tag() * 1000 + helper.h()\n"}},
+    # re-entrancy lock: its location (transient vs storage slot 0) depends on the EVM target
+    "locked": {"target": "locked.vy", "files": {"locked.vy": """
+# pragma nonreentrancy on
+total: public(uint256)
+owner: public(address)
+
+@external
+def add(x: uint256) -> uint256:
+    self.total += x
+    return self.total
+
+@external
+@view
+def peek() -> uint256:
+    return self.total
+"""}},
     "with_layout": {"target": "lay.vy", "files": {"lay.vy": """
 a: public(uint256)
 b: public(HashMap[address, uint256])
